@@ -100,6 +100,7 @@ func isURLCodePoint(r rune) bool {
 var ASCIITabOrNewline = bitset.New(0x0d).Set(0x09).Set(0x0a).Set(0x0d)
 var ASCIIAlpha = bitset.New(0x7a)
 var ASCIIDigit = bitset.New(0x39)
+var asciiOctalDigit = bitset.New(0x37)
 var ASCIIHexDigit = bitset.New(0x66)
 var ASCIIAlphanumeric = bitset.New(0x7a)
 var C0control = bitset.New(0x1f)
@@ -131,6 +132,9 @@ func init() {
 
 	for i := '0'; i <= '9'; i++ {
 		ASCIIDigit.Set(uint(i))
+	}
+	for i := '0'; i <= '7'; i++ {
+		asciiOctalDigit.Set(uint(i))
 	}
 
 	ASCIIAlphanumeric.InPlaceUnion(ASCIIAlpha)
